@@ -51,7 +51,7 @@ const STATIC_TEXTS: [&str; 18] = [
     // braces that only exist after entity decoding: a `{` right before a binding, a literal `{{x}}`, a lone `{`
     "a&#123;", "&#123;&#123;x}}", "{ x }", "&#123;&#123;&#123;y}}}",
     // one-digit and padded numeric references, hex in both cases
-    "t&#9;t&#09;&#x9;", "&#x4a;&#X4B;&#7;",
+    "t&#9;t&#09;&#x9;", "&#x4a;&#x4B;&#7;",
 ];
 const ATTR_NAMES: [&str; 5] = ["a", "hidden", "my-prop", "value", "src"];
 const EVENTS: [&str; 3] = ["tap", "touch-start", "custom_ev"];
